@@ -82,7 +82,17 @@ func needSample() bool {
 	return len(r.first) < 2
 }
 
-func record(nontrivial bool, key []byte, mk func() []byte, labels []string) {
+// small keeps evidence samples readable: a very long case is kept as its leading part.
+func small(b []byte) []byte {
+	if len(b) <= 3000 {
+		return b
+	}
+	out, _ := json.Marshal(map[string]interface{}{"truncated_case_bytes": len(b), "leading_part": string(b[:2500])})
+	return out
+}
+
+func record(nontrivial bool, key []byte, mkFull func() []byte, labels []string) {
+	mk := func() []byte { return small(mkFull()) }
 	r.mu.Lock()
 	defer r.mu.Unlock()
 	r.evaluations++
